@@ -60,6 +60,24 @@ CLAIMED = {
     "C31": ("Coq proof (Toll transparency: erasing Tolls below a Memory changes no Memory count and no upward traffic, hence by C05 equals execution; no write actions; charge = crossing traffic filtered by direction) + differential correspondence of evaluate_mapping on mappings with Toll holders + mapper runs on a Toll architecture",
             "C31_transparent, C31_no_writes, C31_reads, C31_only_in_direction over the model of analyze_toll; evaluate_mapping on random specs with a Toll level (per-tensor directions) is compared with a forwarding execution and with the vm_compute-evaluated model (every action, latency, energy column; no Toll writes / occupancy); real map_workload_to_arch runs on a two-Einsum Toll architecture check that no returned mapping has a Toll as outermost holder of the shared tensor. The mapper's template generation is not modelled (clause 3 is oracle-only).",
             "Coq kernel; MiniForge class (single Einsum, temporal loops) for the accounting; clause 3 checked on mapper outputs only"),
+    "C01": ("Coq proof (exhaustive enumerator = declarative mapspace; reference optimum is a lower bound over every valid mapping and is attained; infeasibility) over the MiniForge cost model proved equal to execution (C05) + comparison of the real mapper's optimum with the proven optimum",
+            "C01_space_exact, C01_opt_is_lower_bound, C01_opt_attained, C01_infeasible for every MiniForge spec; map_workload_to_arch is run with ENERGY, LATENCY and EDP on random single-Einsum specs (keep/may_keep sets, finite memories, overrides) and its best objective compared with the exhaustively enumerated optimum (python twin on every case, the Coq opt by vm_compute where the space is small, twin = Coq checked); a better reference mapping is confirmed with the real evaluate_mapping before it is reported. PARTIAL: one Einsum only (no fusion), no spatial fanout, no loop-bound constraints.",
+            "Coq kernel; MiniForge/MiniSpace class; capacity = accelforge's own usage computation; two fix: commits (constant templates skipped validity checks / aborted the mapper) found by this check"),
+    "C02": ("Coq proof (front of a finite set of objective vectors is complete, minimal, duplicate-free and achieved) + comparison of the real mapper's returned front with the front of the exhaustively enumerated mapspace",
+            "C02_complete, C02_minimal, C02_distinct (AF.Lib.Front); map_workload_to_arch with ENERGY|LATENCY (and RESOURCE_USAGE) on random single-Einsum specs: returned vectors mutually non-dominated, distinct, and every point of the reference front weakly dominated by a returned mapping; the Coq front is evaluated on the scaled vectors of the enumerated space and compared with the twin. PARTIAL: MiniForge class (one Einsum).",
+            "Coq kernel; objective vectors scaled to integers by the harness"),
+    "C03": ("Coq proof (the verified checker in_space certifies perfect factorisation, full iteration of every rank variable, one compute per iteration point, keep sets satisfied, capacity) + certified checking of every mapping the real mapper returns",
+            "C03_valid, C03_compute_once, C03_capacity; every mapping returned by map_workload_to_arch (four metric sets, eval_in_detail on/off) on random specs is converted to MiniForge nodes, checked by in_space inside Coq and by its twin, and re-evaluated by the real evaluate_mapping. PARTIAL: loop-bound constraints, spatial fanouts and fused-loop limits are outside the class.",
+            "Coq kernel; the Mapping-object -> MiniForge printer is glue (cross-checked by the real model's own validity check)"),
+    "C04": ("Coq proof (model = execution per Einsum from C05; totals compose additively, EDP is the product of totals) + three-way differential check per returned mapping",
+            "C04_totals_additive, C04_single, C04_edp_is_product_of_totals; for every returned mapping the joiner's columns, the eval_in_detail re-evaluation, a standalone evaluate_mapping of the reconstructed mapping and (single Einsum) the Coq MiniForge model are compared; 2-3-Einsum matmul chains (fused/unfused) joiner vs model. PARTIAL: fused mappings are compared code-vs-code only.",
+            "Coq kernel; float32 tolerance 2e-5"),
+    "C17": ("Coq proof (coordinate optima and the optimum of the product of two non-negative coordinates are attained on the Pareto front; the front lies within the set) + four mapper runs per spec",
+            "C17_coordinate_optima, C17_front_within_space, C17_edp (AF.Lib.Front); ENERGY, LATENCY, ENERGY|LATENCY and EDP runs of the real mapper on random specs: the three equalities of the property, EDP column = energy x latency on every row, each optimum also against the exhaustive reference. PARTIAL: MiniForge class.",
+            "Coq kernel"),
+    "C18": ("Coq proof (optimum is monotone under any mapspace enlargement that preserves costs; larger memories / larger may_keep / smaller keep are such enlargements and preserve feasibility) + pairs of mapper runs",
+            "C18_monotone, C18_relaxations; (constrained spec, relaxed spec) pairs x {ENERGY, LATENCY, EDP} on the real mapper: the relaxed optimum never exceeds the tight one, both also equal to the exhaustive reference when the relaxation is in the model; imperfect temporal factorisation and the fused-loop limit are mapper-only relaxations. PARTIAL: loop-bound and min_usage relaxations need spatial fanouts (outside the class).",
+            "Coq kernel; MiniForge class"),
 }
 
 PENDING_REASON = "check not built yet in this round (planned, see DESIGN.md section 6); not claimed until its proof and correspondence exist"
